@@ -20,9 +20,9 @@ func init() {
 		Assumptions: []string{"fitness finite, non-negative, <= 1e12", "population size 3..150, 25-60 consecutive epochs"},
 		Cases: func(tier string) int {
 			if tier == "quick" {
-				return 96
+				return 384
 			}
-			return 1200
+			return 2400
 		},
 		Run:      runC02,
 		Required: []string{"epochs", "epochs.parallel", "epochs.multi_species", "species.founded", "species.survived", "species.extinct"},
@@ -102,6 +102,8 @@ func (m *popMonitor) checkPartition(c *Ctx, sc *EvoScenario, gen int, pop *genet
 }
 
 func (m *popMonitor) Constructed(c *Ctx, sc *EvoScenario, pop *genetics.Population) {
+	// a population restored in the middle of a run is a new population: species ids start over
+	m.seenSpecies = map[int]*genetics.Species{}
 	for _, org := range pop.Organisms {
 		if len(org.Genotype.Genes) == 0 {
 			m.skipped = true
